@@ -27,7 +27,7 @@ class C15(Prop):
     named_errors = {"Null", "Invalid"}    # "absent directories (null error) and sizes that are not a record multiple (invalid)"
     pid = "C15"
     title = "Debug, TLS, load-config, exception, security directories are decoded as stored"
-    thm_modules = ["PeliteModel.Thm.C15", "PeliteModel.Thm.ImageLayout", "PeliteModel.Thm.C15Layout"]
+    thm_modules = ["PeliteModel.Thm.C15", "PeliteModel.Thm.C15Guid", "PeliteModel.Thm.ImageLayout", "PeliteModel.Thm.C15Layout"]
 
     @property
     def gens(self):
